@@ -14,6 +14,8 @@ package main
 
 import (
 	"context"
+	"slices"
+	"strings"
 
 	"github.com/zitadel/oidc/v3/pkg/oidc"
 	"github.com/zitadel/oidc/v3/pkg/op"
@@ -48,7 +50,49 @@ func (b c15Base) GetPrivateClaimsFromScopes(ctx context.Context, userID, clientI
 }
 
 // c15TEPart: the exchange storage. Policy = refstore.TEPart's; claims = refstore's (impersonation actor) + delegation actor + marker.
-type c15TEPart struct{ refstore.TEPart }
+type c15TEPart struct {
+	refstore.TEPart
+	trust bool // deep4: the TRUSTING policy (as the repository's example storage): no lookup of the presented access token's id
+}
+
+// ValidateTokenExchangeRequest: the reference policy, or - trusting - the same policy WITHOUT the liveness lookup of an access token's id:
+// default requested type, id_token -> refresh_token unsupported, address dropped, impersonation scope, blocked users. It takes the
+// identities the framework resolved as they are (what example/server/storage does).
+func (p c15TEPart) ValidateTokenExchangeRequest(ctx context.Context, r op.TokenExchangeRequest) error {
+	if !p.trust {
+		return p.TEPart.ValidateTokenExchangeRequest(ctx, r)
+	}
+	s := p.S
+	s.LastExchange = &refstore.ExchangeSeen{ClientID: r.GetClientID(), RequestedType: string(r.GetRequestedTokenType()),
+		SubjectType: string(r.GetExchangeSubjectTokenType()), SubjectIDOrToken: r.GetExchangeSubjectTokenIDOrToken(), Subject: r.GetExchangeSubject(),
+		ActorType: string(r.GetExchangeActorTokenType()), ActorIDOrToken: r.GetExchangeActorTokenIDOrToken(), Actor: r.GetExchangeActor(),
+		Scopes: slices.Clone(r.GetScopes()), Audience: slices.Clone(r.GetAudience()), Resources: slices.Clone(r.GetResourses())}
+	if r.GetRequestedTokenType() == "" {
+		dflt := oidc.RefreshTokenType
+		if s.TEDefaultType != "" {
+			dflt = oidc.TokenType(s.TEDefaultType)
+		}
+		r.SetRequestedTokenType(dflt)
+	}
+	if r.GetExchangeSubjectTokenType() == oidc.IDTokenType && r.GetRequestedTokenType() == oidc.RefreshTokenType {
+		return oidc.ErrInvalidRequest().WithDescription("exchanging id_token to refresh_token is not supported")
+	}
+	scopes := make([]string, 0, len(r.GetScopes()))
+	for _, scope := range r.GetScopes() {
+		if scope == oidc.ScopeAddress {
+			continue
+		}
+		if sub, ok := strings.CutPrefix(scope, refstore.ImpersonateScopePrefix); ok {
+			r.SetSubject(sub)
+		}
+		scopes = append(scopes, scope)
+	}
+	r.SetCurrentScopes(scopes)
+	if r.GetExchangeSubject() == refstore.BlockedUser || r.GetSubject() == refstore.BlockedUser {
+		return oidc.ErrInvalidRequest().WithDescription("subject is blocked")
+	}
+	return nil
+}
 
 func c15DelegationActor(r op.TokenExchangeRequest, add func(k string, v any)) {
 	if r.GetExchangeActor() != "" {
@@ -109,7 +153,7 @@ func (p c15UIPart) SetUserinfoFromRequest(ctx context.Context, userinfo *oidc.Us
 }
 
 // c15Caps: which of the four optional interfaces the storage value implements.
-type c15Caps struct{ TE, TEV, PC, UI bool }
+type c15Caps struct{ TE, TEV, PC, UI, Trust bool }
 
 func (c c15Caps) mask() (m int) {
 	for i, b := range []bool{c.TE, c.TEV, c.PC, c.UI} {
@@ -243,35 +287,35 @@ func c15Storage(s *refstore.Store, c c15Caps) op.Storage {
 	case 0:
 		return c15Store00{c15Base{s}, refstore.CCPart{S: s}, refstore.DevicePart{S: s}}
 	case 1:
-		return c15Store01{c15Base{s}, refstore.CCPart{S: s}, refstore.DevicePart{S: s}, c15TEPart{refstore.TEPart{S: s}}}
+		return c15Store01{c15Base{s}, refstore.CCPart{S: s}, refstore.DevicePart{S: s}, c15TEPart{refstore.TEPart{S: s}, c.Trust}}
 	case 2:
 		return c15Store02{c15Base{s}, refstore.CCPart{S: s}, refstore.DevicePart{S: s}, refstore.TEVerifierPart{S: s}}
 	case 3:
-		return c15Store03{c15Base{s}, refstore.CCPart{S: s}, refstore.DevicePart{S: s}, c15TEPart{refstore.TEPart{S: s}}, refstore.TEVerifierPart{S: s}}
+		return c15Store03{c15Base{s}, refstore.CCPart{S: s}, refstore.DevicePart{S: s}, c15TEPart{refstore.TEPart{S: s}, c.Trust}, refstore.TEVerifierPart{S: s}}
 	case 4:
 		return c15Store04{c15Base{s}, refstore.CCPart{S: s}, refstore.DevicePart{S: s}, c15PCPart{s}}
 	case 5:
-		return c15Store05{c15Base{s}, refstore.CCPart{S: s}, refstore.DevicePart{S: s}, c15TEPart{refstore.TEPart{S: s}}, c15PCPart{s}}
+		return c15Store05{c15Base{s}, refstore.CCPart{S: s}, refstore.DevicePart{S: s}, c15TEPart{refstore.TEPart{S: s}, c.Trust}, c15PCPart{s}}
 	case 6:
 		return c15Store06{c15Base{s}, refstore.CCPart{S: s}, refstore.DevicePart{S: s}, refstore.TEVerifierPart{S: s}, c15PCPart{s}}
 	case 7:
-		return c15Store07{c15Base{s}, refstore.CCPart{S: s}, refstore.DevicePart{S: s}, c15TEPart{refstore.TEPart{S: s}}, refstore.TEVerifierPart{S: s}, c15PCPart{s}}
+		return c15Store07{c15Base{s}, refstore.CCPart{S: s}, refstore.DevicePart{S: s}, c15TEPart{refstore.TEPart{S: s}, c.Trust}, refstore.TEVerifierPart{S: s}, c15PCPart{s}}
 	case 8:
 		return c15Store08{c15Base{s}, refstore.CCPart{S: s}, refstore.DevicePart{S: s}, c15UIPart{refstore.UserinfoFromReqPart{S: s}}}
 	case 9:
-		return c15Store09{c15Base{s}, refstore.CCPart{S: s}, refstore.DevicePart{S: s}, c15TEPart{refstore.TEPart{S: s}}, c15UIPart{refstore.UserinfoFromReqPart{S: s}}}
+		return c15Store09{c15Base{s}, refstore.CCPart{S: s}, refstore.DevicePart{S: s}, c15TEPart{refstore.TEPart{S: s}, c.Trust}, c15UIPart{refstore.UserinfoFromReqPart{S: s}}}
 	case 10:
 		return c15Store10{c15Base{s}, refstore.CCPart{S: s}, refstore.DevicePart{S: s}, refstore.TEVerifierPart{S: s}, c15UIPart{refstore.UserinfoFromReqPart{S: s}}}
 	case 11:
-		return c15Store11{c15Base{s}, refstore.CCPart{S: s}, refstore.DevicePart{S: s}, c15TEPart{refstore.TEPart{S: s}}, refstore.TEVerifierPart{S: s}, c15UIPart{refstore.UserinfoFromReqPart{S: s}}}
+		return c15Store11{c15Base{s}, refstore.CCPart{S: s}, refstore.DevicePart{S: s}, c15TEPart{refstore.TEPart{S: s}, c.Trust}, refstore.TEVerifierPart{S: s}, c15UIPart{refstore.UserinfoFromReqPart{S: s}}}
 	case 12:
 		return c15Store12{c15Base{s}, refstore.CCPart{S: s}, refstore.DevicePart{S: s}, c15PCPart{s}, c15UIPart{refstore.UserinfoFromReqPart{S: s}}}
 	case 13:
-		return c15Store13{c15Base{s}, refstore.CCPart{S: s}, refstore.DevicePart{S: s}, c15TEPart{refstore.TEPart{S: s}}, c15PCPart{s}, c15UIPart{refstore.UserinfoFromReqPart{S: s}}}
+		return c15Store13{c15Base{s}, refstore.CCPart{S: s}, refstore.DevicePart{S: s}, c15TEPart{refstore.TEPart{S: s}, c.Trust}, c15PCPart{s}, c15UIPart{refstore.UserinfoFromReqPart{S: s}}}
 	case 14:
 		return c15Store14{c15Base{s}, refstore.CCPart{S: s}, refstore.DevicePart{S: s}, refstore.TEVerifierPart{S: s}, c15PCPart{s}, c15UIPart{refstore.UserinfoFromReqPart{S: s}}}
 	case 15:
-		return c15Store15{c15Base{s}, refstore.CCPart{S: s}, refstore.DevicePart{S: s}, c15TEPart{refstore.TEPart{S: s}}, refstore.TEVerifierPart{S: s}, c15PCPart{s}, c15UIPart{refstore.UserinfoFromReqPart{S: s}}}
+		return c15Store15{c15Base{s}, refstore.CCPart{S: s}, refstore.DevicePart{S: s}, c15TEPart{refstore.TEPart{S: s}, c.Trust}, refstore.TEVerifierPart{S: s}, c15PCPart{s}, c15UIPart{refstore.UserinfoFromReqPart{S: s}}}
 	}
 	panic("unreachable")
 }
